@@ -427,34 +427,39 @@ func (s snap) full() string {
 
 // consistent is the property's state part evaluated on the real code alone: counters = counts,
 // byQueryPid = the processes in command Query.
-func (s snap) consistent() string {
+func (s snap) consistent() string { m, _ := s.consistentTag(); return m }
+
+// consistentTag also names the defect class as far as the harness can tell it model-free: a wrong
+// Threads_running alone is left to the model's region of the case ("-"); a wrong index, a wrong
+// Threads_connected or a Query process without Kill is never a listed class.
+func (s snap) consistentTag() (string, string) {
 	nq := 0
 	for _, p := range s.procs {
 		if p.Command == sql.ProcessCommandQuery {
 			nq++
 			if c, ok := s.byPid[p.QueryPid]; !ok || c != p.Connection {
-				return fmt.Sprintf("connection %d runs query pid %d but byQueryPid[%d] = %v (present %v)", p.Connection, p.QueryPid, p.QueryPid, c, ok)
+				return fmt.Sprintf("connection %d runs query pid %d but byQueryPid[%d] = %v (present %v)", p.Connection, p.QueryPid, p.QueryPid, c, ok), "pid_index_wrong"
 			}
 			if p.Kill == nil {
-				return fmt.Sprintf("connection %d in command Query has no Kill func", p.Connection)
+				return fmt.Sprintf("connection %d in command Query has no Kill func", p.Connection), "query_without_kill"
 			}
 		}
 	}
 	if len(s.byPid) != nq {
-		return fmt.Sprintf("byQueryPid has %d entries, %d processes are in command Query", len(s.byPid), nq)
+		return fmt.Sprintf("byQueryPid has %d entries, %d processes are in command Query", len(s.byPid), nq), "pid_index_wrong"
 	}
 	if s.connected != int64(len(s.procs)) {
-		return fmt.Sprintf("Threads_connected = %d, the process list has %d sessions", s.connected, len(s.procs))
+		return fmt.Sprintf("Threads_connected = %d, the process list has %d sessions", s.connected, len(s.procs)), "threads_connected_wrong"
 	}
 	if s.running != int64(nq) {
-		return fmt.Sprintf("Threads_running = %d, %d sessions are in command Query", s.running, nq)
+		return fmt.Sprintf("Threads_running = %d, %d sessions are in command Query", s.running, nq), "-"
 	}
-	return ""
+	return "", ""
 }
 
 // runSeq: one goroutine, observation after every call. Returns the observation, the first
 // consistency failure and the first cancellation failure (model-free oracles).
-func runSeq(es []ev) (obs string, inconsistent string, badCancel string) {
+func runSeq(es []ev) (obs string, inconsistent string, incTag string, badCancel string) {
 	w := newWorld()
 	var parts []string
 	prevCancelled := map[int]bool{}
@@ -464,8 +469,8 @@ func runSeq(es []ev) (obs string, inconsistent string, badCancel string) {
 		s := w.snapshot()
 		parts = append(parts, r+"|"+s.full())
 		if inconsistent == "" && r != "X" {
-			if m := s.consistent(); m != "" {
-				inconsistent = fmt.Sprintf("after call %d %s: %s", i+1, e, m)
+			if m, tag := s.consistentTag(); m != "" {
+				inconsistent, incTag = fmt.Sprintf("after call %d %s: %s", i+1, e, m), tag
 			}
 		}
 		for _, t := range s.cancelled {
@@ -481,7 +486,7 @@ func runSeq(es []ev) (obs string, inconsistent string, badCancel string) {
 			}
 		}
 	}
-	return strings.Join(parts, ";"), inconsistent, badCancel
+	return strings.Join(parts, ";"), inconsistent, incTag, badCancel
 }
 
 // runConc: one goroutine per stream plus a killer and a reader; observation at quiescence.
@@ -686,7 +691,7 @@ func run(a hx.RunArgs) error {
 	t0 := time.Now()
 
 	seqCase := func(kind string, es []ev, conformant bool) {
-		obs, inc, bad := runSeq(es)
+		obs, inc, incTag, bad := runSeq(es)
 		nontriv := strings.Contains(obs, ":Q:") && !strings.HasSuffix(obs, "|")
 		id := out.Case(histPayload("seq", es), obs, nontriv)
 		out.Stat(kind)
@@ -697,10 +702,10 @@ func run(a hx.RunArgs) error {
 		// model-free oracles: the state part only where the harness knows the history follows the
 		// protocol (the region of a listed defect is taken from the model's answer for the case)
 		if conformant && inc != "" {
-			out.OracleFail(id, "-", inc)
+			out.OracleFail(id, incTag, inc)
 		}
 		if bad != "" {
-			out.OracleFail(id, "-", bad)
+			out.OracleFail(id, "cancelled_foreign_or_fresh_context", bad)
 		}
 	}
 
